@@ -134,11 +134,11 @@ func (t *TcpConn) finally() {
 
 func (t *TcpConn) flush() {
 	t.verifPoint("flush.begin")
-	for i := 0; i < len(t.outbound); i++ {
+	for {
 		select {
 		case pkt, ok := <-t.outbound:
 			if !ok {
-				break
+				return
 			}
 			t.verifPoint("flush.deq")
 			if err := t.write(pkt); err != nil {
